@@ -110,43 +110,128 @@ theorem split_systems (s : RSys) (checks : List Check) (l : List (List Nat × RS
   have := (splitGroups_inv (s.rxns.map Rxn.keys)).2.1.subset (mem_flatIdx.mpr ⟨g, hg, ha⟩)
   simpa using this
 
-/-! ## categorize_substances -/
+/-! ## categorize_substances
+
+`expand rxns` is the list of irreversible reactions `categorize_substances` works on: a plain `Reaction` is kept, an
+`Equilibrium` is replaced by the forward and backward reaction of `as_reactions()`. -/
+
+/-- `Equilibrium.as_reactions()` (no arguments): it succeeds exactly when the parameter is a pair `(kf, kb)` and the
+equilibrium has a net effect on some species; the forward reaction has the equilibrium's four stoichiometry dicts, the
+backward one has reactants and products swapped **in the active and in the inactive part**. Hence, for every species, the
+backward net stoichiometry is the negative of the forward one, total reactant/product stoichiometries are swapped, and
+`identify_equilibria` pairs them. -/
+theorem as_reactions_spec (r : Rxn) :
+    ((∃ p, r.asReactions = .ok p) ↔ r.param.isSome ∧ r.paramB.isSome ∧ r.anyEffect = true) ∧
+    ∀ f b, r.asReactions = .ok (f, b) →
+      (f.reac = r.reac ∧ f.prod = r.prod ∧ f.inactReac = r.inactReac ∧ f.inactProd = r.inactProd) ∧
+      (b.reac = r.prod ∧ b.prod = r.reac ∧ b.inactReac = r.inactProd ∧ b.inactProd = r.inactReac) ∧
+      (∀ k, f.net k = r.net k ∧ b.net k = - r.net k ∧
+        b.allReac k = f.allProd k ∧ b.allProd k = f.allReac k) ∧
+      (∀ keys, isReverse keys f b = true) ∧
+      f.param = r.param ∧ b.param = r.paramB ∧ f.name = r.name ∧ b.name = none := by
+  refine ⟨asReactions_ok_iff r, ?_⟩
+  intro f b h
+  obtain ⟨h1, h2, h3, h4, h5, h6, h7, h8, h9, h10, h11, h12, _⟩ := asReactions_spec h
+  refine ⟨⟨h1, h2, h3, h4⟩, ⟨h5, h6, h7, h8⟩, ?_, ?_, h9, h10, h11, h12⟩
+  · intro k
+    refine ⟨?_, ?_, ?_, ?_⟩ <;> simp only [Rxn.net, Rxn.allReac, Rxn.allProd, h1, h2, h3, h4, h5, h6, h7, h8] <;> omega
+  · intro keys
+    rw [isReverse_iff]
+    intro k _
+    constructor <;> simp only [Rxn.allReac, Rxn.allProd, h1, h2, h3, h4, h5, h6, h7, h8]
+
+/-- the expansion: it succeeds iff `as_reactions()` succeeds for every equilibrium of the system; it is the identity
+on systems of plain reactions; and its members are exactly the plain reactions and the forward/backward reactions of the
+equilibria -/
+theorem expand_spec (rxns : List Rxn) :
+    ((∃ ex, expand rxns = .ok ex) ↔ ∀ r ∈ rxns, r.isEq = true → r.param.isSome ∧ r.paramB.isSome ∧ r.anyEffect = true) ∧
+    ((∀ r ∈ rxns, r.isEq = false) → expand rxns = .ok rxns) ∧
+    ∀ ex, expand rxns = .ok ex → ∀ x, x ∈ ex ↔ (x ∈ rxns ∧ x.isEq = false) ∨
+      ∃ r ∈ rxns, r.isEq = true ∧ ∃ f b, r.asReactions = .ok (f, b) ∧ (x = f ∨ x = b) := by
+  refine ⟨?_, expand_plain, fun ex h x => mem_expand h x⟩
+  rw [expand_ok_iff]
+  constructor
+  · intro h r hr he; exact (asReactions_ok_iff r).mp (h r hr he)
+  · intro h r hr he; exact (asReactions_ok_iff r).mpr (h r hr he)
 
 /-- "categorising substances returns exactly the species that are only ever net-produced (accumulated), only
-net-consumed (depleted), present with zero net effect (unaffected), or absent (nonparticipating)".
+net-consumed (depleted), present with zero net effect (unaffected), or absent (nonparticipating)" — over the expanded
+(irreversible) reactions `ex`. `categorize_substances(checks=())` succeeds exactly when the expansion does.
 Read off the code: "present" / "absent" are decided by the COEFFICIENTS (`all_prod > 0` somewhere / all
 coefficients zero), see `nonparticipating_iff_absent` for the relation to `Reaction.keys()`.
 A substance that is net-produced by one reaction and net-consumed by another is in no category (`categorize_both`). -/
-theorem categorize_spec (s : RSys) (checks : List Check) (c : Categories) (h : categorize s checks = .ok c) (k : String) :
-    (k ∈ c.accumulated ↔ k ∈ s.keys ∧ (∃ r ∈ s.rxns, 0 < r.net k) ∧ ∀ r ∈ s.rxns, 0 ≤ r.net k) ∧
-    (k ∈ c.depleted ↔ k ∈ s.keys ∧ (∃ r ∈ s.rxns, r.net k < 0) ∧ ∀ r ∈ s.rxns, r.net k ≤ 0) ∧
-    (k ∈ c.unaffected ↔ k ∈ s.keys ∧ (∀ r ∈ s.rxns, r.net k = 0) ∧ ∃ r ∈ s.rxns, 0 < r.allProd k) ∧
-    (k ∈ c.nonparticipating ↔ k ∈ s.keys ∧ ∀ r ∈ s.rxns, r.allReac k = 0 ∧ r.allProd k = 0) := by
-  obtain ⟨h1, h2, h3, h4, _⟩ := categorize_ok h
+theorem categorize_spec (s : RSys) (checks : List Check) (c : Categories) (h : categorize s checks = .ok c) :
+    ∃ ex, expand s.rxns = .ok ex ∧ ∀ k : String,
+    (k ∈ c.accumulated ↔ k ∈ s.keys ∧ (∃ r ∈ ex, 0 < r.net k) ∧ ∀ r ∈ ex, 0 ≤ r.net k) ∧
+    (k ∈ c.depleted ↔ k ∈ s.keys ∧ (∃ r ∈ ex, r.net k < 0) ∧ ∀ r ∈ ex, r.net k ≤ 0) ∧
+    (k ∈ c.unaffected ↔ k ∈ s.keys ∧ (∀ r ∈ ex, r.net k = 0) ∧ ∃ r ∈ ex, 0 < r.allProd k) ∧
+    (k ∈ c.nonparticipating ↔ k ∈ s.keys ∧ ∀ r ∈ ex, r.allReac k = 0 ∧ r.allProd k = 0) := by
+  obtain ⟨ex, hex, h1, h2, h3, h4, _⟩ := categorize_ok h
+  refine ⟨ex, hex, fun k => ?_⟩
   rw [h1, h2, h3, h4]
   simp [List.mem_filter, categoryOf_accumulated, categoryOf_depleted,
     categoryOf_unaffected, categoryOf_nonparticipating]
 
+/-- when does it answer: with `checks=()` exactly when every equilibrium member can be expanded (pair parameter, some net
+effect); in particular always for systems of plain reactions — also for a system without reactions, where every
+substance is nonparticipating (repaired by the fix "stoichiometry matrices of a system without reactions are
+two-dimensional"; before it numpy raised IndexError on `net[:, i]`). -/
+theorem categorize_ok_iff (s : RSys) :
+    ((∃ c, categorize s [] = .ok c) ↔
+      ∀ r ∈ s.rxns, r.isEq = true → r.param.isSome ∧ r.paramB.isSome ∧ r.anyEffect = true) ∧
+    ∀ substs : ODict, categorize ⟨[], substs⟩ [] = .ok ⟨[], [], [], substs.map (·.1)⟩ := by
+  refine ⟨?_, fun substs => ?_⟩
+  · rw [categorize_nochecks_iff, (expand_spec s.rxns).1]
+  · simp [categorize, expand, make_odict_nochecks, categoryOf, RSys.keys]
+
 /-- the four categories are pairwise disjoint, and a substance is in none of them exactly when it is net-consumed by
-one reaction and net-produced by another -/
+one (expanded) reaction and net-produced by another -/
 theorem categorize_both (s : RSys) (checks : List Check) (c : Categories) (h : categorize s checks = .ok c) (k : String)
     (hk : k ∈ s.keys) :
+    ∃ ex, expand s.rxns = .ok ex ∧
     (k ∉ c.accumulated ∧ k ∉ c.depleted ∧ k ∉ c.unaffected ∧ k ∉ c.nonparticipating ↔
-      (∃ r ∈ s.rxns, r.net k < 0) ∧ ∃ r ∈ s.rxns, 0 < r.net k) ∧
+      (∃ r ∈ ex, r.net k < 0) ∧ ∃ r ∈ ex, 0 < r.net k) ∧
     ¬ (k ∈ c.accumulated ∧ k ∈ c.depleted) ∧ ¬ (k ∈ c.accumulated ∧ k ∈ c.unaffected) ∧
     ¬ (k ∈ c.accumulated ∧ k ∈ c.nonparticipating) ∧ ¬ (k ∈ c.depleted ∧ k ∈ c.unaffected) ∧
     ¬ (k ∈ c.depleted ∧ k ∈ c.nonparticipating) ∧ ¬ (k ∈ c.unaffected ∧ k ∈ c.nonparticipating) := by
-  obtain ⟨h1, h2, h3, h4, _⟩ := categorize_ok h
+  obtain ⟨ex, hex, h1, h2, h3, h4, _⟩ := categorize_ok h
+  refine ⟨ex, hex, ?_⟩
   rw [h1, h2, h3, h4, ← categoryOf_both]
   simp only [List.mem_filter, hk, true_and, decide_eq_true_eq]
-  cases categoryOf s.rxns k <;> simp
+  cases categoryOf ex k <;> simp
 
-/-- when no reaction lists a zero coefficient, "nonparticipating" is exactly "in no reaction's key set"
+/-- a species on which an `Equilibrium` member has a net effect is both produced and consumed (by its two directions):
+it is in none of the four categories — whether it is an active or an inactive participant -/
+theorem categorize_equilibrium_member (s : RSys) (checks : List Check) (c : Categories)
+    (h : categorize s checks = .ok c) (r : Rxn) (hr : r ∈ s.rxns) (he : r.isEq = true) (k : String) (hnet : r.net k ≠ 0) :
+    k ∉ c.accumulated ∧ k ∉ c.depleted ∧ k ∉ c.unaffected ∧ k ∉ c.nonparticipating := by
+  obtain ⟨ex, hex, hspec⟩ := categorize_spec s checks c h
+  obtain ⟨p, hp⟩ := (expand_ok_iff s.rxns).mp ⟨ex, hex⟩ r hr he
+  obtain ⟨f, b⟩ := p
+  have hf : f ∈ ex := (mem_expand hex f).mpr (Or.inr ⟨r, hr, he, f, b, hp, Or.inl rfl⟩)
+  have hb : b ∈ ex := (mem_expand hex b).mpr (Or.inr ⟨r, hr, he, f, b, hp, Or.inr rfl⟩)
+  obtain ⟨hfn, hbn, _, _⟩ := ((as_reactions_spec r).2 f b hp).2.2.1 k
+  obtain ⟨s1, s2, s3, s4⟩ := hspec k
+  have aux1 : ∀ x y z : Int, x = z → y = -z → 0 ≤ x → 0 ≤ y → z ≠ 0 → False := by intros; omega
+  have aux2 : ∀ x y z : Int, x = z → y = -z → x ≤ 0 → y ≤ 0 → z ≠ 0 → False := by intros; omega
+  refine ⟨fun hk => ?_, fun hk => ?_, fun hk => ?_, fun hk => ?_⟩
+  · exact aux1 _ _ _ hfn hbn ((s1.mp hk).2.2 f hf) ((s1.mp hk).2.2 b hb) hnet
+  · exact aux2 _ _ _ hfn hbn ((s2.mp hk).2.2 f hf) ((s2.mp hk).2.2 b hb) hnet
+  · exact hnet (hfn ▸ (s3.mp hk).2.1 f hf)
+  · have h1 := (s4.mp hk).2 f hf
+    have : f.net k = 0 := by rw [Rxn.net_eq, h1.1, h1.2]; rfl
+    exact hnet (hfn ▸ this)
+
+/-- plain reactions only, no zero coefficient written: "nonparticipating" is exactly "in no reaction's key set"
 (i.e. `substance_participation` is empty) -/
 theorem nonparticipating_iff_absent (s : RSys) (checks : List Check) (c : Categories) (h : categorize s checks = .ok c)
-    (hpos : ∀ r ∈ s.rxns, r.positive) (k : String) :
+    (hplain : ∀ r ∈ s.rxns, r.isEq = false) (hpos : ∀ r ∈ s.rxns, r.positive) (k : String) :
     k ∈ c.nonparticipating ↔ k ∈ s.keys ∧ substanceParticipation s k = [] := by
-  rw [(categorize_spec s checks c h k).2.2.2]
+  obtain ⟨ex, hex, hspec⟩ := categorize_spec s checks c h
+  rw [expand_plain hplain] at hex
+  simp only [Except.ok.injEq] at hex
+  subst hex
+  rw [(hspec k).2.2.2]
   apply and_congr_right
   intro _
   rw [List.eq_nil_iff_forall_not_mem]
@@ -176,14 +261,6 @@ theorem nonparticipating_zero_coefficient_witness :
     substanceParticipation s "A" = [0] ∧
       (categorize s []).toOption.map (·.nonparticipating) = some ["A"] := by
   decide
-
-/-- `categorize_substances(checks=())` never raises, and a system without reactions reports every substance as
-nonparticipating (repaired by the fix "stoichiometry matrices of a system without reactions are two-dimensional";
-before it numpy raised IndexError on `net[:, i]`). -/
-theorem categorize_no_reactions (substs : ODict) :
-    categorize ⟨[], substs⟩ [] = .ok ⟨[], [], [], substs.map (·.1)⟩ ∧ ∀ s : RSys, ∃ c, categorize s [] = .ok c := by
-  refine ⟨?_, categorize_nochecks⟩
-  simp [categorize, make_odict_nochecks, categoryOf, RSys.keys]
 
 /-! ## identify_equilibria, substance_participation, per_reaction_effect_on_substance -/
 
@@ -254,29 +331,47 @@ theorem add_spec (a b : RSys) (ha : a.keys.Nodup) (hb : b.keys.Nodup) :
   · exact fun k => lookup_odictUpdate a.substs b.substs hb k
   · exact odictUpdate_nodup a.substs b.substs ha
 
-/-- `ReactionSystem.concatenate([first, …rest])` (repaired code: `rsys = rsys + yes`): the sum holds exactly the
-reactions of `first` followed, system by system, by the reactions of the rest that are not stoichiometric duplicates of
-what was accumulated before that system; the duplicates go, in order, to the second result. A one-element list returns
-that element itself and an empty duplicates system; an empty list raises. -/
-theorem concatenate_spec (first : RSys) (rest : List RSys) :
+/-- `ReactionSystem.concatenate([first, …rest])` (repaired code: `rsys = rsys + yes`): both results — reactions AND
+substances — are the fold of `concatSpecStep` (Proofs/RSysGraph.lean: append the reactions of the next system that are no
+stoichiometric duplicate of anything accumulated so far, and update the OrderedDict with the substances occurring in
+them; the duplicates and their substances go to the second result). The substances of the sum start with those of
+`first` in order and stay unique. A one-element list returns that element itself and an empty duplicates system; an empty
+list raises. (That no argument is modified is a statement about Python object identity: it is checked by the history
+oracle, not expressible for this pure model; see `runOp_prefix` in Proofs.) -/
+theorem concatenate_spec (first : RSys) (rest : List RSys) (hn : first.keys.Nodup) :
     ∃ sum dups, concatenate (first :: rest) = some (sum, dups) ∧
+      (sum, dups) = rest.foldl concatSpecStep (first, ⟨[], []⟩) ∧
       (sum.rxns, dups.rxns) = rest.foldl concatRxns (first.rxns, []) ∧
+      sum.keys.Nodup ∧ first.keys <+: sum.keys ∧
       (rest = [] → sum = first ∧ dups = ⟨[], []⟩) ∧ concatenate [] = none := by
-  refine ⟨_, _, rfl, ?_, ?_, rfl⟩
-  · exact foldl_concatStep_rxns rest (first, ⟨[], []⟩)
+  obtain ⟨h1, h2, h3⟩ := foldl_concatStep_eq rest (first, ⟨[], []⟩) hn
+  refine ⟨_, _, rfl, h1, ?_, h2, h3, ?_, rfl⟩
+  · exact foldl_concatRxns_of_steps rest (first, ⟨[], []⟩)
   · intro h; subst h; exact ⟨rfl, rfl⟩
 
-/-- purity in a history: `concatenate` (like `+`, `subset` and `split`) only APPENDS its results to the store — every
-system that was in the store, in particular the first argument of `concatenate`, is left exactly as it was, so later
-queries on it answer for the system as the user built it. Only `+=` replaces a slot. -/
-theorem concatenate_pure (store store' : List RSys) (op : HOp) (hop : ∀ i j, op ≠ .iadd i j)
-    (h : runOp store op = .ok store') : store <+: store' :=
-  runOp_prefix store store' op hop h
+/-! ## as_substance_index, __eq__ -/
 
-/-- … and along a whole history without `+=` -/
-theorem history_pure (ops : List HOp) (hops : ∀ op ∈ ops, ∀ i j, op ≠ .iadd i j) (store store' : List RSys)
-    (h : runHistory store ops = .ok store') : store <+: store' :=
-  runHistory_prefix ops hops store store' h
+/-- `as_substance_index(key)`: the position of the key in substance order (the first one, keys being unique), ValueError
+exactly for an unknown key -/
+theorem substance_index_spec (s : RSys) (k : String) :
+    (∀ i, asSubstanceIndex s k = some i → s.keys[i]? = some k ∧ ∀ j, j < i → s.keys[j]? ≠ some k) ∧
+    (asSubstanceIndex s k = none ↔ k ∉ s.keys) ∧
+    (k ∈ s.keys → ∃ i, asSubstanceIndex s k = some i) := by
+  refine ⟨fun i h => asSubstanceIndex_some h, asSubstanceIndex_none s k, ?_⟩
+  intro hk
+  cases h : asSubstanceIndex s k with
+  | none => exact absurd hk ((asSubstanceIndex_none s k).mp h)
+  | some i => exact ⟨i, rfl⟩
+
+/-- `rs1 == rs2`: same substances (same keys in the same order with equal Substance objects) and pairwise equal
+reactions, where reactions are compared on the four ordered stoichiometry dicts and the parameter — NOT on the name and not
+on the class (`Equilibrium` vs `Reaction`) -/
+theorem eq_spec (a b : RSys) :
+    a.pyEq b = true ↔ a.substs = b.substs ∧
+      List.Forall₂ (fun x y : Rxn => x.reac = y.reac ∧ x.prod = y.prod ∧ x.param = y.param ∧ x.paramB = y.paramB ∧
+        x.inactReac = y.inactReac ∧ x.inactProd = y.inactProd) a.rxns b.rxns := by
+  simp only [RSys.pyEq, Bool.and_eq_true, beq_iff_eq, listPyEq_iff, Rxn.pyEq_iff]
+  exact and_comm
 
 /-! ## per-substance arrays and dictionaries -/
 
@@ -472,6 +567,18 @@ example :
     let s : RSys := ⟨[r], ["H2", "O2", "H2O", "Pt", "N2"].map fun k => (k, { name := k })⟩
     categorize s [.substanceKeys, .duplicate, .duplicateNames] =
       .ok ⟨["H2O"], ["H2", "O2"], ["Pt"], ["N2"]⟩ := by
+  decide
+
+/-- the equilibrium A + (S) ⇌ B with parameter (kf, kb) = (3, 5) and a spectator Q: both directions are seen, so A, B and
+the inactive S are in no category; Q is nonparticipating. A scalar parameter makes `as_reactions()` (hence
+`categorize_substances`) raise. -/
+example :
+    let e : Rxn := { reac := [("A", 1)], prod := [("B", 1)], inactReac := [("S", 1)], param := some 3, paramB := some 5,
+                     name := some "eq1", isEq := true }
+    let subs : ODict := ["A", "B", "S", "Q"].map fun k => (k, { name := k })
+    categorize ⟨[e], subs⟩ [.substanceKeys, .duplicate, .duplicateNames] = .ok ⟨[], [], [], ["Q"]⟩ ∧
+    (e.asReactions.toOption.map fun p => p.2.inactProd) = some [("S", 1)] ∧
+    categorize ⟨[{ e with paramB := none }], subs⟩ [] = .error (.expand .rateNeeded) := by
   decide
 
 /-- bounds for 2 H2 + O2 ⇌ 2 H2O from (2, 1, 0): H2 ≤ min(4/2) , O2 ≤ 2/2, H2O ≤ min(4/2, 2/1); the state (0, 0, 2)
